@@ -55,6 +55,10 @@ def Ev.isFailure : Ev → Bool
   | .missing _ | .cyclic _ | .mismatch _ | .noBinding _ => true
   | _ => false
 
+def Ev.isMissing : Ev → Bool
+  | .missing _ => true
+  | _ => false
+
 inductive Out
   | ok
   | tooDeep        -- `Error::InvalidAsset("ingredient chain depth …")`
@@ -80,7 +84,8 @@ structure GSt where
   fin : List Nat := []
   /-- ghost: claims expanded (inserted in the map) -/
   exp : Nat := 0
-  /-- ghost: ingredient references looked up in the store -/
+  /-- ghost: iterations of the ingredient loops (every ingredient assertion examined, whether
+  or not it names a manifest; each costs one parse and at most one store look-up) -/
   insp : Nat := 0
   /-- ghost: label comparisons of `claim_label_path.contains` -/
   cmps : Nat := 0
@@ -98,6 +103,10 @@ def gCyc (st : GSt) (u : Nat) : GSt :=
 def gMiss (st : GSt) (v : Nat) : GSt :=
   { st with insp := st.insp + 1, log := .missing v :: st.log }
 
+/-- state after an ingredient assertion without a manifest reference was skipped (`continue`) -/
+def gSkip (st : GSt) : GSt :=
+  { st with insp := st.insp + 1 }
+
 /-- state after `claim_label_path.push` / `manifest_map.insert` -/
 def gPush (st : GSt) (u : Nat) : GSt :=
   { st with path := u :: st.path, map := u :: st.map, exp := st.exp + 1 }
@@ -112,7 +121,7 @@ def gLoop (rec : Nat → GSt → Out × GSt) (s : Store) (stop : Bool) (u : Nat)
   | [], st => (.ok, st)
   | i :: is, st =>
     match i.target with
-    | none => gLoop rec s stop u is st
+    | none => gLoop rec s stop u is (gSkip st)
     | some v =>
       if v < s.length then
         if st.path.contains v then (.cyclic, gCyc st u)
@@ -142,9 +151,13 @@ structure ISt where
   log : List Ev := []
   /-- ghost: recursive expansions -/
   exp : Nat := 0
-  /-- ghost: ingredient references looked up -/
+  /-- ghost: iterations of the ingredient loops (every ingredient assertion examined) -/
   insp : Nat := 0
   deriving DecidableEq, Repr
+
+/-- state after an ingredient assertion without a manifest reference was passed over -/
+def iSkip (st : ISt) : ISt :=
+  { st with insp := st.insp + 1 }
 
 /-- state after the hash comparison of ingredient `i` → `v` was logged -/
 def iHash (st : ISt) (i : Ing) (v : Nat) : ISt :=
@@ -166,7 +179,7 @@ def iLoop (rec : Nat → ISt → Out × ISt) (s : Store) : List Ing → ISt → 
   | [], st => (.ok, st)
   | i :: is, st =>
     match i.target with
-    | none => iLoop rec s is st
+    | none => iLoop rec s is (iSkip st)
     | some v =>
       match s[v]? with
       | some c =>
@@ -262,6 +275,28 @@ def validate (lim : Nat) (s : Store) (root : Nat) : VRes :=
       | .none => { out := .noBinding, log := g.2.log.reverse ++ [Ev.noBinding root] }
     else { out := g.1, log := g.2.log.reverse }
 
+/-- The events of `validate` with the scope they are logged in: `false` = while the active claim
+itself is validated (nothing on the tracker's ingredient-URI stack:
+`get_claim_referenced_manifests`, the hash-binding check, `verify_claim` of the active claim),
+`true` = inside `ingredient_checks` after `validation_log.push_ingredient_uri`. The scope decides
+whether `ValidationResults::from_store` may filter the status (see `Props.C19`). -/
+def scopeLog (lim : Nat) (s : Store) (root : Nat) : List (Ev × Bool) :=
+  match s[root]? with
+  | none => []
+  | some c =>
+    let g := gcrm lim s false (fuelFor s) root {}
+    let gl := g.2.log.reverse.map fun e => (e, false)
+    if g.1 = .ok then
+      match (hb lim s (fuelFor s) root []).1 with
+      | .found _ =>
+        if c.sigOk = false then gl
+        else
+          let i := ic lim s (fuelFor s) 0 root { visited := [root], log := [] }
+          gl ++ [(Ev.verify root, false)] ++ i.2.log.reverse.map fun e => (e, true)
+      | .outOfFuel => gl
+      | .none => gl ++ [(Ev.noBinding root, false)]
+    else gl
+
 /-- What a caller sees: an error, or a report that is clean / carries failures. -/
 def VRes.isClean (r : VRes) : Bool := r.out == .ok && r.log.all (fun e => !e.isFailure)
 
@@ -351,11 +386,17 @@ def handle (toks : List String) : String :=
         | .outOfFuel => "out-of-fuel"
     else if op == "validate" then
       let r := validate lim s root
-      s!"{r.out.str} log={evsStr r.log}"
+      let sc := String.ofList ((scopeLog lim s root).map fun p => if p.2 then 'i' else 'a')
+      s!"{r.out.str} log={evsStr r.log} scope={if sc.isEmpty then "-" else sc}"
     else if op == "e2e" then
+      -- `prerec=1`: every ingredient assertion that names a missing manifest also records the
+      -- status `ingredient.manifest.missing` for it; `ValidationResults::from_store` then drops
+      -- the equal statuses logged in ingredient scope (and only those)
       let r := validate lim s root
+      let prerec := field rest "prerec" == "1"
+      let kept := (scopeLog lim s root).filter fun p => !(prerec && p.2 && p.1.isMissing)
       if r.out != .ok then s!"err:{r.out.str}"
-      else if r.isClean then "clean" else "flagged"
+      else if kept.all (fun p => !p.1.isFailure) then "clean" else "flagged"
     else "bad-op"
   | [] => "bad-op"
 
